@@ -797,6 +797,32 @@ def b_frontends(tier, seed):
                     with open(out2, encoding="utf-8", newline="") as fh:
                         if fh.read() != want:
                             fails.append(dict(key="cli-format-differs", options=opts))
+        # one path rewritten in quick succession with contents of the SAME byte length (so neither the size nor, within one
+        # second, the time stamp tells the versions apart): every open / include must give the text that is in the file now
+        same = os.path.join(d0, "rewritten.map")
+        inc = os.path.join(d0, "rewritten_inc.map")
+        host = os.path.join(d0, "host.map")
+        with open(host, "w", encoding="utf-8") as fh:
+            fh.write('MAP\n INCLUDE "rewritten_inc.map"\nEND')
+        for rnd_ in range(2 if tier != "thorough" else 6):
+            for nm in ("\U0001F600", "\U0001F680", "\U00010348", "\U0001F30D"):
+                text = 'MAP\n NAME "%s"\nEND' % nm
+                for target in (same, inc):
+                    with open(target, "w", encoding="utf-8") as fh:
+                        fh.write(text if target is same else ' NAME "%s"' % nm)
+                n += 1
+                try:
+                    a = m.open(same)
+                    with open(same, encoding="utf-8") as fh:
+                        b = m.load(fh)
+                    h = m.open(host)
+                except Exception as ex:
+                    fails.append(dict(key="rewritten-file", error=_exc(ex)))
+                    continue
+                if not (plain(a) == plain(b) == plain(m.loads(text))):
+                    fails.append(dict(key="open-after-rewrite-differs-from-loads", name=nm, got=plain(a).get("name")))
+                if plain(h).get("name") != nm:
+                    fails.append(dict(key="include-after-rewrite-is-stale", name=nm, got=plain(h).get("name")))
         # mappyfile validate: one line per message, exit status
         good = os.path.join(d0, "good.map")
         with open(good, "w") as fh:
@@ -832,7 +858,7 @@ def b_frontends(tier, seed):
                         fails.append(dict(key="cli-schema-differs", version=v))
     finally:
         shutil.rmtree(d0, ignore_errors=True)
-    return _rec("seam/front-ends", "open/load/loads and dump/save/dumps on generated documents with non-ASCII / astral strings; CLI format/validate/schema as real subprocesses", n, fails)
+    return _rec("seam/front-ends", "open/load/loads and dump/save/dumps on generated documents with non-ASCII / astral strings; one path (and an included file) rewritten repeatedly with same-length contents; CLI format/validate/schema as real subprocesses", n, fails)
 
 
 # ---------------------------------------------------------------------------------------------
@@ -872,11 +898,11 @@ def b_is_group(tier, seed):
     fails, n = [], 0
     L_ = 7 if tier != "thorough" else 8
     for k in range(L_ + 1):
-        for tup in itertools.product('()"a \\', repeat=k):
+        for tup in itertools.product('()"\'a \\', repeat=k):
             s = "".join(tup)
             n += 1
             if tr.is_group(s) != _ref_is_group(s):
                 fails.append(dict(key=f"is_group:{s!r}", got=tr.is_group(s), want=_ref_is_group(s)))
                 if len(fails) > 20:
                     return _rec("lemma/is_group", "", n, fails)
-    return _rec("lemma/is_group", f"all strings over {{ ( ) \" a blank backslash }} up to length {L_} against a reference bracket matcher (exhaustive)", n, fails)
+    return _rec("lemma/is_group", f"all strings over {{ ( ) \" ' a blank backslash }} up to length {L_} against a reference bracket matcher (exhaustive)", n, fails)
